@@ -1,0 +1,31 @@
+//go:build verif
+
+package pdf
+
+// VerifYieldFunc, if non-nil, is called at the scheduling points placed
+// around the critical sections of [Decode], [DecodeExclusive],
+// cacheStoreOrLoad and [StoreOrLoadPair].  The argument names the point.
+// It must be set before any goroutine uses the package and must not be
+// changed while goroutines are running.
+//
+// This variable only exists when the "verif" build tag is set.
+var VerifYieldFunc func(point string)
+
+func verifYield(point string) {
+	if f := VerifYieldFunc; f != nil {
+		f(point)
+	}
+}
+
+// VerifMuFree reports whether the extractor's mutex is currently free.  It
+// is meant to be called by a test-side scheduler while every goroutine
+// using the extractor is parked inside [VerifYieldFunc].
+//
+// This method only exists when the "verif" build tag is set.
+func (x *Extractor) VerifMuFree() bool {
+	if !x.mu.TryLock() {
+		return false
+	}
+	x.mu.Unlock()
+	return true
+}
